@@ -2,6 +2,7 @@
   Props/C12.lean — tag selection returns and deletes exactly the matching jobs.
 -/
 import SchedVerif.Lemmas.Frame
+import SchedVerif.Model.Async
 namespace SV
 
 /-- **selection rule**: a job is selected iff it is registered and the query is empty, or (any_tag)
@@ -107,5 +108,45 @@ theorem C12.tags_copy (s : State) (ops : List Op) (k : Nat) (hk : k < s.heap.len
 
 /-! non-vacuity -/
 example : dedup [3, 1, 3, 2, 1] = [3, 2, 1] := by decide
+
+
+/-! ### the asyncio front end ("in both front ends") -/
+
+/-- **asyncio: the same selection rule** — a registered job is selected iff the query is empty or
+    its tags contain all (any_tag false) / at least one (any_tag true) of the given tags -/
+theorem C12.aio_select_iff (s : AState) (q : List Nat) (any : Bool) (k : Nat) :
+    k ∈ s.selectKeys q any ↔
+      k ∈ s.reg ∧ (q = [] ∨ ∃ t, s.task? k = some t ∧
+        ((any = true ∧ ∃ x ∈ q, x ∈ t.tags) ∨ (any = false ∧ ∀ x ∈ q, x ∈ t.tags))) := by
+  unfold AState.selectKeys
+  by_cases hq : q = []
+  · subst hq; simp
+  · have hne : q.isEmpty = false := by cases q <;> simp_all
+    simp only [hne, Bool.false_eq_true, if_false, List.mem_filter, hq, false_or]
+    constructor
+    · rintro ⟨hk, hm⟩
+      refine ⟨hk, ?_⟩
+      cases hf : s.task? k with
+      | none => simp [hf] at hm
+      | some t =>
+          simp only [hf, tagMatch] at hm
+          refine ⟨t, rfl, ?_⟩
+          cases any with
+          | true => left; simpa using hm
+          | false => right; simpa using hm
+    · rintro ⟨hk, t, hf, hm⟩
+      refine ⟨hk, ?_⟩
+      simp only [hf, tagMatch]
+      rcases hm with ⟨ha, x, hx, hxs⟩ | ⟨ha, hall⟩
+      · subst ha; simpa using ⟨x, hx, hxs⟩
+      · subst ha; simpa using hall
+
+/-- asyncio `get_jobs` returns exactly that selection and changes nothing; `delete_jobs` reports
+    the size of the selection -/
+theorem C12.aio_get_and_count (s : AState) (q : List Nat) (any : Bool) :
+    (astepOp s (.get q any)).1 = s ∧
+    (∃ l, (astepOp s (.get q any)).2 = .set l ∧ ∀ k, k ∈ l ↔ k ∈ s.selectKeys q any) ∧
+    (astepOp s (.delTags q any)).2 = .count (s.selectKeys q any).length := by
+  refine ⟨rfl, ⟨sortKeys (s.selectKeys q any), rfl, fun k => (sortKeys_perm _).mem_iff⟩, rfl⟩
 
 end SV
